@@ -1,6 +1,7 @@
 package hotstuffpb
 
 import (
+	"time"
 	"bytes"
 
 	"github.com/relab/hotstuff"
@@ -163,13 +164,23 @@ func VH_C12_syncinfo(m int, mask int, ed int) {
 
 // C12(c): blocks and proposals: the decoded block has the same hash (recomputed from its
 // bytes), parent, view, proposer, certificate and timestamp.
-func VH_C12_block(k int, cmds int, withAgg int) {
+func VH_C12_block(k int, cmds int, withAgg int, tsMode int) {
 	batch := &clientpb.Batch{}
 	for i := 0; i < cmds; i++ {
 		batch.Commands = append(batch.Commands, &clientpb.Command{ClientID: nondetU32("client"), SequenceNumber: nondetU64("seq"), Data: []byte{nondetU8("data")}})
 	}
 	qc := hotstuff.NewQuorumCert(vhMulti(k, false), hotstuff.View(nondetU64("view")), vhHash("hash"))
 	b := hotstuff.NewBlock(vhHash("parent"), qc, batch, hotstuff.View(nondetU64("view")), hotstuff.ID(nondetU32("proposer")))
+	if tsMode == 1 {
+		// an arbitrary timestamp: any second between the years ~1698 and ~2514 (before the epoch
+		// and beyond the range of UnixNano included), any sub-second part
+		sec, nsec := nondetI64("ts-sec"), nondetI64("ts-nsec")
+		vassume(sec >= -(1<<33) && sec <= 1<<34 && nsec >= 0 && nsec < 1000000000)
+		b.SetTimestamp(time.Unix(sec, nsec))
+		if sec < 0 && nsec > 0 {
+			vcover("pre-epoch-subsecond")
+		}
+	}
 	p := hotstuff.ProposeMsg{ID: b.Proposer(), Block: b}
 	if withAgg == 1 {
 		agg := hotstuff.NewAggregateQC(map[hotstuff.ID]hotstuff.QuorumCert{hotstuff.ID(nondetU32("id")): qc}, vhMulti(1, false), hotstuff.View(nondetU64("view")))
@@ -181,6 +192,7 @@ func VH_C12_block(k int, cmds int, withAgg int) {
 	vassert(b2.View() == b.View(), "block-view")
 	vassert(b2.Proposer() == b.Proposer(), "block-proposer")
 	vassert(b2.Timestamp().UnixNano() == b.Timestamp().UnixNano(), "block-timestamp")
+	vassert(b2.Timestamp().Unix() == b.Timestamp().Unix() && b2.Timestamp().Nanosecond() == b.Timestamp().Nanosecond(), "block-timestamp-seconds-and-nanoseconds")
 	vhSameQC(b.QuorumCert(), b2.QuorumCert(), "block-qc")
 	vassert(bytes.Equal(b2.ToBytes(), b.ToBytes()), "block-bytes")
 	vassert(b2.Hash() == b.Hash(), "block-hash-recomputed-equal")
